@@ -222,6 +222,7 @@ bool QXmppRosterManager::handleStanza(const QDomElement &element)
         // send result iq
         QXmppIq returnIq(QXmppIq::Result);
         returnIq.setId(rosterIq.id());
+        returnIq.setTo(fromJid);
         client()->sendPacket(returnIq);
 
         // store updated entries and notify changes
